@@ -817,7 +817,1338 @@ SOURCES = [
 ]
 
 
+HAND_MODELLED = {
+    "src/ezdxf/math/_mapbox_earcut.py": ["earcut", "linked_list", "eliminate_holes", "eliminate_hole", "filter_points", "earcut_linked",
+                                         "is_ear", "get_leftmost", "split_polygon", "cure_local_intersections", "split_ear_cut",
+                                         "find_hole_bridge", "middle_inside", "intersects_polygon", "remove_node", "insert_node"],
+    "src/ezdxf/math/clipping.py": ["ConvexClippingPolygon2d.__init__", "ConvexClippingPolygon2d.clip_polygon", "ConvexClippingPolygon2d.clip_line",
+                                   "CohenSutherlandLineClipping2d.clip_line"],
+    "src/ezdxf/math/construct2d.py": ["convex_hull_2d"],
+    "src/ezdxf/math/_construct.py": ["is_point_in_polygon_2d", "has_clockwise_orientation"],
+}
+
+
 def regenerate(ctx):
+    import hashlib
+
     text = translate_all(ctx)
     ctx.src("src/ezdxf/math/triangulation.py")
     ctx.write_gen("PolygonKernels", text, SOURCES)
+    # loop structure of the hand-modelled functions: recorded (not enforced) so that a reader of the evidence can see whether
+    # the code the model was written against is the code that was checked; the tie itself is the correspondence stream
+    sig = []
+    for rel, names in HAND_MODELLED.items():
+        mod = ast.parse(ctx.src(rel))
+        for nm in names:
+            fn = find_func(mod, nm)
+            sig.append(f"{nm}:{hashlib.sha256(ast.dump(fn).encode()).hexdigest()[:8]}")
+    ctx.note("hand-modelled loops (sha256 of ast.dump): " + " ".join(sig))
+
+
+# =====================================================================================================
+# part 2: exact geometry (ints / Fractions), generators, adapters to the real code
+# =====================================================================================================
+RULE = (
+    "correspondence: (X1) earcut triangle lists as index triples, Lean model vs. ezdxf.math._mapbox_earcut and vs. the compiled "
+    "ezdxf.acc.mapbox_earcut on every simple polygon of the 4x4 integer grid with up to 6 (quick) / 7 (thorough) vertices (both "
+    "orientations), rotated start vertices, star-shaped and orthogonal polygons with holes, and degenerate / self-intersecting "
+    "point sequences with holes; a float/exact difference is accepted only if the same Python code run with Fractions agrees "
+    "with the model; (X2) exact-valued predicates on dyadic inputs: is_point_in_polygon_2d, has_clockwise_orientation (both "
+    "twins), CohenSutherland encode and accept/reject, convex_hull_2d; (X3) rational-valued results compared at 1e-9: "
+    "ConvexClippingPolygon2d.clip_polygon / clip_line, ClippingRect2d.clip_line, intersection_line_line_2d (both twins); cases in "
+    "which a computed point lies exactly on a clipping line are the stated decision band and are counted, not compared. "
+    "non-trivial = at least one triangle / a clipped or rejected result / a boundary or inside answer. oracle: exact Fraction "
+    "checks on the real code (see notes)."
+)
+TRUSTED_BASE = [
+    "the symbolic translator in harness/props/c19.py (Python/Cython kernels -> Lean over Rat); every kernel is also exercised by the correspondence streams",
+    "hand models of the loops in Model/Polygon.lean (earcut ring surgery, Sutherland-Hodgman, Cohen-Sutherland, monotone chain), tied by correspondence only",
+    "IEEE double arithmetic is exact on the small dyadic inputs used by the exact streams (sums/products), divisions are correctly rounded",
+    "CPython list.sort is stable; set() of Vec2 deduplicates by coordinates",
+]
+ASSUMPTIONS = [
+    "earcut model: at most 80 exterior vertices (the z-order hashed path is covered by the oracle only)",
+    "eliminate_hole: the case in which filter_points removes the bridge node AND one of its former neighbours is not modelled (driver answers 'detached', counted)",
+    "Greiner-Hormann, ConcaveClippingPolygon2d, InvertedClippingPolygon2d: oracle only",
+]
+OPEN = [
+    "completion of earcut for every simple polygon (two-ears theorem) is not proved: earcut_conserves assumes the run is complete",
+    "non-overlap of the earcut triangles: oracle only (exact test)",
+    "cs_reject_sound_partial: proved for the reject test on the input end points only",
+    "hull_upper_left_turns_partial: junction turn, persistence of the lower chain, closing turn and hull_contains_all are not proved",
+    "Sutherland-Hodgman: exactness of the clipped area (result = intersection) is oracle only; containment is proved",
+]
+
+
+def orient(a, b, c):
+    return (b[0] - a[0]) * (c[1] - a[1]) - (b[1] - a[1]) * (c[0] - a[0])
+
+
+def sgn(v):
+    return (v > 0) - (v < 0)
+
+
+def on_seg(a, b, p):
+    return orient(a, b, p) == 0 and min(a[0], b[0]) <= p[0] <= max(a[0], b[0]) and min(a[1], b[1]) <= p[1] <= max(a[1], b[1])
+
+
+def seg_touch(a, b, c, d):
+    """closed segments share at least one point"""
+    o1, o2, o3, o4 = sgn(orient(a, b, c)), sgn(orient(a, b, d)), sgn(orient(c, d, a)), sgn(orient(c, d, b))
+    if o1 * o2 < 0 and o3 * o4 < 0:
+        return True
+    return on_seg(a, b, c) or on_seg(a, b, d) or on_seg(c, d, a) or on_seg(c, d, b)
+
+
+def seg_proper(a, b, c, d):
+    return sgn(orient(a, b, c)) * sgn(orient(a, b, d)) < 0 and sgn(orient(c, d, a)) * sgn(orient(c, d, b)) < 0
+
+
+def area2(poly):
+    """twice the signed area, counter-clockwise positive"""
+    s = 0
+    for i in range(len(poly)):
+        a, b = poly[i - 1], poly[i]
+        s += a[0] * b[1] - b[0] * a[1]
+    return s
+
+
+def pip_exact(p, poly):
+    """+1 inside, 0 on the boundary, -1 outside; winding by signed crossings of the upward ray, exact"""
+    wn = 0
+    for i in range(len(poly)):
+        a, b = poly[i - 1], poly[i]
+        if on_seg(a, b, p):
+            return 0
+        if a[1] <= p[1]:
+            if b[1] > p[1] and orient(a, b, p) > 0:
+                wn += 1
+        elif b[1] <= p[1] and orient(a, b, p) < 0:
+            wn -= 1
+    return 1 if wn != 0 else -1
+
+
+def is_simple(poly):
+    n = len(poly)
+    if n < 3 or len(set(poly)) != n:
+        return False
+    for i in range(n):
+        a, b = poly[i], poly[(i + 1) % n]
+        for j in range(i + 1, n):
+            c, d = poly[j], poly[(j + 1) % n]
+            if j == i + 1 or (i == 0 and j == n - 1):
+                # adjacent edges: only the shared vertex
+                if j == i + 1:
+                    if on_seg(a, b, d) or on_seg(c, d, a):
+                        return False
+                else:
+                    if on_seg(a, b, c) or on_seg(c, d, b):
+                        return False
+            elif seg_touch(a, b, c, d):
+                return False
+    return True
+
+
+def seg_inter_point(a, b, c, d):
+    """intersection point of the lines ab and cd (not parallel), exact"""
+    da, db = orient(c, d, a), orient(c, d, b)
+    t = F(da) / F(da - db)
+    return (a[0] + t * (b[0] - a[0]), a[1] + t * (b[1] - a[1]))
+
+
+def hull_exact(pts):
+    pts = sorted(set(pts))
+    if len(pts) < 3:
+        return pts
+    lo, up = [], []
+    for p in pts:
+        while len(lo) >= 2 and orient(lo[-2], lo[-1], p) <= 0:
+            lo.pop()
+        lo.append(p)
+    for p in reversed(pts):
+        while len(up) >= 2 and orient(up[-2], up[-1], p) <= 0:
+            up.pop()
+        up.append(p)
+    return lo[:-1] + up[:-1]
+
+
+def convex_inter_area2(A, B):
+    """twice the area of the intersection of two convex polygons (any orientation), by vertex enumeration + hull"""
+    def inside(p, poly, s):
+        return all(sgn(orient(poly[i - 1], poly[i], p)) * s >= 0 for i in range(len(poly)))
+
+    sa, sb = sgn(area2(A)), sgn(area2(B))
+    if sa == 0 or sb == 0:
+        return 0
+    cand = [p for p in A if inside(p, B, sb)] + [p for p in B if inside(p, A, sa)]
+    for i in range(len(A)):
+        a, b = A[i - 1], A[i]
+        for j in range(len(B)):
+            c, d = B[j - 1], B[j]
+            if orient(a, b, c) - orient(a, b, d) != 0 and seg_touch(a, b, c, d):
+                cand.append(seg_inter_point(a, b, c, d))
+    h = hull_exact([(F(x), F(y)) for x, y in cand])
+    return abs(area2(h)) if len(h) >= 3 else 0
+
+
+def fan(poly):
+    """signed triangle fan of a polygon: [(sign, triangle)]"""
+    o = poly[0]
+    out = []
+    for i in range(1, len(poly) - 1):
+        t = (o, poly[i], poly[i + 1])
+        s = sgn(area2(t))
+        if s:
+            out.append((s, t))
+    return out
+
+
+def inter_area2(P, Q):
+    """twice the area of the intersection of two simple polygons, exact (signed fan decomposition of both)"""
+    sp, sq = sgn(area2(P)), sgn(area2(Q))
+    tot = 0
+    fq = fan(Q)
+    for s1, t1 in fan(P):
+        for s2, t2 in fq:
+            tot += s1 * s2 * convex_inter_area2(list(t1), list(t2))
+    return tot * sp * sq
+
+
+def tri_interiors_meet(t1, t2):
+    """open triangles intersect (separating axis test, exact)"""
+    for A, B in ((t1, t2), (t2, t1)):
+        s = sgn(area2(A))
+        if s == 0:
+            return False
+        for i in range(3):
+            a, b = A[i - 1], A[i]
+            if all(sgn(orient(a, b, p)) * s <= 0 for p in B):
+                return False
+    return True
+
+
+# ------------------------------------------------------------------ generators
+GRID_CACHE: dict = {}
+
+
+def grid_simple_polygons(G, n):
+    """all simple polygons with n vertices on the G x G integer grid, start vertex = smallest, both directions"""
+    key = (G, n)
+    if key in GRID_CACHE:
+        return GRID_CACHE[key]
+    pts = [(x, y) for x in range(G) for y in range(G)]
+    out = []
+
+    def ok_new_edge(path, q):
+        a = path[-1]
+        m = len(path)
+        for i in range(m - 1):
+            c, d = path[i], path[i + 1]
+            if i == m - 2:
+                if orient(c, d, q) == 0 and ((q[0] - a[0]) * (c[0] - a[0]) + (q[1] - a[1]) * (c[1] - a[1])) > 0:
+                    return False
+                if on_seg(a, q, c):
+                    return False
+            elif seg_touch(a, q, c, d):
+                return False
+        return True
+
+    def rec(path, used):
+        if len(path) == n:
+            a, q = path[-1], path[0]
+            m = len(path)
+            for i in range(m - 1):
+                c, d = path[i], path[i + 1]
+                if i == 0:
+                    if orient(c, d, a) == 0 and ((a[0] - c[0]) * (d[0] - c[0]) + (a[1] - c[1]) * (d[1] - c[1])) > 0:
+                        return
+                    if on_seg(a, q, d):
+                        return
+                elif i == m - 2:
+                    if orient(c, d, q) == 0 and ((q[0] - a[0]) * (c[0] - a[0]) + (q[1] - a[1]) * (c[1] - a[1])) > 0:
+                        return
+                    if on_seg(a, q, c):
+                        return
+                elif seg_touch(a, q, c, d):
+                    return
+            out.append(tuple(path))
+            return
+        for q in pts:
+            if q in used or q < path[0]:
+                continue
+            if len(path) >= 2 and not ok_new_edge(path, q):
+                continue
+            used.add(q)
+            path.append(q)
+            rec(path, used)
+            path.pop()
+            used.discard(q)
+
+    for s in pts:
+        rec([s], {s})
+    GRID_CACHE[key] = out
+    return out
+
+
+def star_polygon(rng, n, R):
+    """star-shaped simple polygon with integer vertices (sorted by exact angle around an interior centre)"""
+    for _ in range(50):
+        c = (R // 2, R // 2)
+        pts = set()
+        while len(pts) < n:
+            p = (rng.randint(0, R), rng.randint(0, R))
+            if p != c:
+                pts.add(p)
+
+        def half(p):
+            dx, dy = p[0] - c[0], p[1] - c[1]
+            return 0 if (dy > 0 or (dy == 0 and dx > 0)) else 1
+
+        import functools
+
+        def cmp(p, q):
+            hp, hq = half(p), half(q)
+            if hp != hq:
+                return hp - hq
+            o = orient(c, p, q)
+            if o != 0:
+                return -1 if o > 0 else 1
+            dp = (p[0] - c[0]) ** 2 + (p[1] - c[1]) ** 2
+            dq = (q[0] - c[0]) ** 2 + (q[1] - c[1]) ** 2
+            return -1 if dp < dq else (1 if dp > dq else 0)
+
+        order = sorted(pts, key=functools.cmp_to_key(cmp))
+        # one point per direction
+        poly = []
+        for p in order:
+            if poly and half(poly[-1]) == half(p) and orient(c, poly[-1], p) == 0:
+                continue
+            poly.append(p)
+        if len(poly) >= 3 and is_simple(poly) and pip_exact(c, poly) == 1:
+            return poly
+    return [(0, 0), (R, 0), (R, R)]
+
+
+def ortho_polygon(rng, k, H, keep_collinear=True):
+    """x-monotone orthogonal polygon (staircase over the x axis), counter-clockwise; columns of width 2"""
+    hs = [rng.randint(2, H) for _ in range(k)]
+    top = []
+    x = 2 * k
+    for i in range(k - 1, -1, -1):
+        top.append((x, hs[i]))
+        x -= 2
+        top.append((x, hs[i]))
+    poly = [(0, 0), (2 * k, 0)] + top
+    out = []
+    for p in poly:
+        if out and out[-1] == p:
+            continue
+        out.append(p)
+    if out[0] == out[-1]:
+        out.pop()
+    if not keep_collinear:
+        out = [p for i, p in enumerate(out) if orient(out[i - 1], p, out[(i + 1) % len(out)]) != 0]
+    return out, hs
+
+
+def place_holes(rng, ext, count, scale, tries=40):
+    """small polygons strictly inside ext, pairwise disjoint (checked exactly)"""
+    holes = []
+    xs = [p[0] for p in ext]
+    ys = [p[1] for p in ext]
+    shapes = [[(0, 0), (1, 0), (1, 1), (0, 1)], [(0, 0), (2, 0), (1, 1)], [(0, 0), (1, 0), (0, 1)], [(0, 0), (2, 1), (1, 2), (0, 1)],
+              [(0, 0), (1, 0), (2, 0), (2, 1), (0, 1)]]
+    for _ in range(tries):
+        if len(holes) >= count:
+            break
+        sh = rng.choice(shapes)
+        s = rng.randint(1, scale)
+        ox, oy = rng.randint(min(xs), max(xs)), rng.randint(min(ys), max(ys))
+        h = [(ox + s * x, oy + s * y) for x, y in sh]
+        if rng.random() < 0.5:
+            h.reverse()
+        if any(pip_exact(p, ext) != 1 for p in h):
+            continue
+        bad = False
+        for i in range(len(h)):
+            a, b = h[i - 1], h[i]
+            for j in range(len(ext)):
+                if seg_touch(a, b, ext[j - 1], ext[j]):
+                    bad = True
+            for g in holes:
+                for j in range(len(g)):
+                    if seg_touch(a, b, g[j - 1], g[j]):
+                        bad = True
+        if bad:
+            continue
+        if any(pip_exact(h[0], g) >= 0 or pip_exact(g[0], h) >= 0 for g in holes):
+            continue
+        holes.append(h)
+    return holes
+
+
+def valid_with_holes(ctx, salt, count):
+    """(kind, exterior, holes): star-shaped and orthogonal polygons with holes, integer coordinates"""
+    rng = ctx.rng(salt)
+    out = []
+    for k in range(count):
+        if k % 2 == 0:
+            ext = star_polygon(rng, rng.choice([5, 8, 12, 20, 35]), rng.choice([12, 20, 40]))
+            kind = "star"
+        else:
+            ext, _ = ortho_polygon(rng, rng.randint(2, 9), rng.choice([4, 8, 12]), keep_collinear=rng.random() < 0.5)
+            ext = [(3 * x, 3 * y) for x, y in ext]
+            kind = "ortho"
+        if rng.random() < 0.5:
+            ext = ext[::-1]
+        r = rng.randrange(len(ext))
+        ext = ext[r:] + ext[:r]
+        holes = place_holes(rng, ext, rng.choice([0, 1, 1, 2, 3, 5]), 3)
+        if rng.random() < 0.15 and holes:
+            # a Steiner point (hole with a single vertex) strictly inside and outside the other holes
+            for _ in range(10):
+                p = (rng.randint(min(x for x, _ in ext), max(x for x, _ in ext)), rng.randint(min(y for _, y in ext), max(y for _, y in ext)))
+                if pip_exact(p, ext) == 1 and all(pip_exact(p, h) == -1 for h in holes):
+                    holes.append([p])
+                    break
+        out.append((kind, ext, holes))
+    return out
+
+
+def degenerate_inputs(ctx, salt, count):
+    rng = ctx.rng(salt)
+    out = []
+    for _ in range(count):
+        G = rng.choice([3, 4, 5, 8])
+        n = rng.randint(0, 12)
+        ext = [(rng.randint(0, G), rng.randint(0, G)) for _ in range(n)]
+        if rng.random() < 0.2 and ext:
+            ext.append(ext[0])
+        holes = []
+        for _ in range(rng.choice([0, 0, 0, 1, 1, 2, 3])):
+            m = rng.choice([0, 1, 1, 2, 3, 3, 4, 5])
+            holes.append([(rng.randint(0, G), rng.randint(0, G)) for _ in range(m)])
+        out.append(("degenerate", ext, holes))
+    return out
+
+
+# ------------------------------------------------------------------ protocol formatting
+def rs(v) -> str:
+    if isinstance(v, int):
+        return str(v)
+    v = F(v)
+    return str(v.numerator) if v.denominator == 1 else f"{v.numerator}/{v.denominator}"
+
+
+def ps(p) -> str:
+    return rs(p[0]) + "," + rs(p[1])
+
+
+def pl(poly) -> str:
+    return " ".join(ps(p) for p in poly)
+
+
+def parse_pts(s):
+    out = []
+    for tok in s.split():
+        a, b = tok.split(",")
+        out.append((F(a), F(b)))
+    return out
+
+
+TOL = "1/10000000000"
+
+
+class FP:
+    """point with exact Fraction coordinates (the pure Python earcut is duck typed)"""
+    __slots__ = ("x", "y")
+
+    def __init__(self, x, y):
+        self.x, self.y = F(x), F(y)
+
+
+def run_earcut(fn, ext, holes, mk):
+    pts = [mk(p) for p in ext]
+    hs = [[mk(p) for p in h] for h in holes]
+    ids = {}
+    k = 0
+    for p in pts:
+        ids[id(p)] = k
+        k += 1
+    for h in hs:
+        for p in h:
+            ids[id(p)] = k
+            k += 1
+    tris = fn(pts, hs)
+    return [tuple(ids[id(v)] for v in t) for t in tris]
+
+
+def tri_text(tris):
+    return " ".join("-".join(str(i) for i in t) for t in tris)
+
+
+class Hang(Exception):
+    pass
+
+
+class watchdog:
+    """SIGALRM based time limit for calls that may not return (main thread only)"""
+
+    def __init__(self, seconds=2.0):
+        self.seconds = seconds
+
+    def __enter__(self):
+        import signal
+
+        def handler(*_):
+            raise Hang()
+
+        self.old = signal.signal(signal.SIGALRM, handler)
+        signal.setitimer(signal.ITIMER_REAL, self.seconds)
+
+    def __exit__(self, *a):
+        import signal
+
+        signal.setitimer(signal.ITIMER_REAL, 0)
+        signal.signal(signal.SIGALRM, self.old)
+        return False
+
+
+def impls():
+    """the two triangulation implementations and the two construct twins (None if the C-extension is not available)"""
+    import ezdxf.math._mapbox_earcut as PY
+    import ezdxf.math._construct as CPY
+
+    try:
+        import ezdxf.acc.mapbox_earcut as CY
+        import ezdxf.acc.construct as CCY
+    except ImportError:
+        CY = CCY = None
+    return PY, CY, CPY, CCY
+
+
+def close(a: float, b, tol=1e-9) -> bool:
+    b = float(b)
+    return abs(a - b) <= tol * max(1.0, abs(a), abs(b))
+
+
+def custom_compare(ctx, stream, driver_lines, items):
+    """items: [(request, compare(model_line) -> None | 'skip:<why>' | 'diff:<impl text>', nontrivial)]"""
+    outs = ctx.driver("C19", driver_lines, build=DRIVER_DEPS)
+    for (req, cmp, nontriv), model in zip(items, outs):
+        verdict = cmp(model)
+        if verdict and verdict.startswith("skip:"):
+            ctx.hist(stream, verdict[5:])
+            continue
+        ctx.count(stream, req, nontriv, sample={"request": req[:300], "model": model[:300], "verdict": verdict or "agree"})
+        if verdict:
+            ctx.disagree(stream, req, verdict[5:], model)
+    ctx.cov["disagreements_checked"] += len(items)
+
+
+# =====================================================================================================
+# correspondence
+# =====================================================================================================
+def earcut_cases(ctx):
+    """(kind, exterior, holes) with at most 80 exterior vertices"""
+    cases = []
+    for n in range(3, ctx.n(6, 7) + 1):
+        for poly in grid_simple_polygons(4, n):
+            cases.append((f"grid{n}", list(poly), []))
+    rng = ctx.rng("rot")
+    for n in range(4, ctx.n(6, 7) + 1):
+        polys = grid_simple_polygons(4, n)
+        for _ in range(ctx.n(1500, 20000)):
+            p = list(rng.choice(polys))
+            r = rng.randrange(1, len(p))
+            cases.append(("grid-rotated", p[r:] + p[:r], []))
+    for kind, ext, holes in valid_with_holes(ctx, "valid", ctx.n(1500, 15000)):
+        if len(ext) <= 80:
+            cases.append((kind, ext, holes))
+    cases += degenerate_inputs(ctx, "degenerate", ctx.n(6000, 60000))
+    # closed input (first vertex repeated), duplicates, collinear runs
+    for poly in grid_simple_polygons(4, 4)[:: ctx.n(9, 2)]:
+        p = list(poly)
+        cases.append(("closed", p + [p[0]], []))
+        cases.append(("dup", [p[0], p[0]] + p[1:], []))
+    return cases
+
+
+def correspond(ctx):
+    PY, CY, CPY, CCY = impls()
+    from ezdxf.math import Vec2
+
+    if CY is None:
+        ctx.note("C-extension not importable: the Cython twins are not exercised in this run")
+    # ---------------------------------------------------------------- X1 earcut
+    cases = earcut_cases(ctx)
+    lines, items = [], []
+    twin_diff = 0
+    for kind, ext, holes in cases:
+        req = f"tris|{pl(ext)}|{';'.join(pl(h) for h in holes)}"
+        tf = tri_text(run_earcut(PY.earcut, ext, holes, lambda p: Vec2(p)))
+        if CY is not None:
+            tc = tri_text(run_earcut(CY.earcut, ext, holes, lambda p: Vec2(p)))
+            ctx.count("X1b earcut twins (C-extension vs pure Python)", req, bool(tf))
+            if tc != tf:
+                twin_diff += 1
+                ctx.disagree("X1b earcut twins (C-extension vs pure Python)", req, "cython: " + tc, "python: " + tf)
+
+        def cmp(model, tf=tf, ext=ext, holes=holes, kind=kind):
+            if model.startswith("detached"):
+                return f"skip:unmodelled in {kind}: bridge and a neighbour removed by filter_points"
+            ctx.hist("X1 earcut model vs code", kind)
+            if model == ("ok " + tf).rstrip() or model == "ok " + tf:
+                return None
+            exact = tri_text(run_earcut(PY.earcut, ext, holes, lambda p: FP(*p)))
+            if model.rstrip() == ("ok " + exact).rstrip():
+                if kind.startswith("grid") or kind in ("star", "ortho", "closed", "dup"):
+                    return "diff:float run differs from the exact run of the same code on a valid input: " + tf
+                return "skip:float rounding decides (the code run with Fractions agrees with the model)"
+            return "diff:" + tf + "   [exact run: " + exact + "]"
+
+        lines.append(req)
+        items.append((req, cmp, bool(tf)))
+    custom_compare(ctx, "X1 earcut model vs code", lines, items)
+
+    # ---------------------------------------------------------------- X2 exact predicates
+    x2 = []
+    rng = ctx.rng("x2")
+    polys = []
+    for n in (3, 4, 5, 6):
+        g = grid_simple_polygons(4, n)
+        polys += [list(rng.choice(g)) for _ in range(ctx.n(60, 400))]
+    half = [F(k, 2) for k in range(-1, 8)]
+    for poly in polys:
+        if rng.random() < 0.3:
+            poly = poly + [poly[0]]
+        vs = [Vec2(p) for p in poly]
+        for _ in range(ctx.n(12, 30)):
+            p = (rng.choice(half), rng.choice(half))
+            req = f"pip|{TOL}|{ps(p)}|{pl(poly)}"
+            def call(mod):
+                try:
+                    return mod.is_point_in_polygon_2d(Vec2(float(p[0]), float(p[1])), vs)
+                except Exception as e:  # noqa
+                    return "err " + type(e).__name__
+
+            a = call(CPY)
+            if CCY is not None and call(CCY) != a:
+                ctx.disagree("X2 exact predicates", req, "cython differs", str(a))
+            x2.append((req, str(a), a != -1))
+    for poly in polys + [[], [(0, 0)], [(0, 0), (1, 1)], [(0, 0), (1, 0), (0, 0)], [(0, 0), (1, 0), (2, 0)]]:
+        for variant in (poly, poly[::-1], poly + poly[:1]):
+            req = f"cw|{pl(variant)}"
+            try:
+                a = "1" if CPY.has_clockwise_orientation([Vec2(p) for p in variant]) else "0"
+            except ValueError:
+                a = "err ValueError"
+            if CCY is not None:
+                try:
+                    b = "1" if CCY.has_clockwise_orientation([Vec2(p) for p in variant]) else "0"
+                except ValueError:
+                    b = "err ValueError"
+                if a != b:
+                    ctx.disagree("X2 exact predicates", req, "cython: " + b, a)
+            x2.append((req, a, a == "1"))
+    from ezdxf.math.clipping import CohenSutherlandLineClipping2d, ConvexClippingPolygon2d, ClippingRect2d
+    from ezdxf.math import convex_hull_2d
+
+    quarter = [F(k, 4) for k in range(-8, 21)]
+    for _ in range(ctx.n(1500, 15000)):
+        lo = (rng.choice(quarter[8:14]), rng.choice(quarter[8:14]))
+        hi = (lo[0] + rng.choice(quarter[8:17]), lo[1] + rng.choice(quarter[8:17]))
+        p = (rng.choice(quarter), rng.choice(quarter))
+        if rng.random() < 0.3:
+            p = (rng.choice([lo[0], hi[0]]), p[1])
+        if rng.random() < 0.3:
+            p = (p[0], rng.choice([lo[1], hi[1]]))
+        cs = CohenSutherlandLineClipping2d(Vec2(float(lo[0]), float(lo[1])), Vec2(float(hi[0]), float(hi[1])))
+        code = cs.encode(float(p[0]), float(p[1]))
+        x2.append((f"code|{ps(lo)}|{ps(hi)}|{ps(p)}", str(code), code != 0))
+    for _ in range(ctx.n(1500, 15000)):
+        n = rng.choice([0, 1, 2, 3, 4, 6, 9, 15, 30])
+        G = rng.choice([2, 3, 6])
+        pts = [(F(rng.randint(0, 2 * G), 2), F(rng.randint(0, 2 * G), 2)) for _ in range(n)]
+        if rng.random() < 0.3:
+            pts += pts[: rng.randint(0, 3)]
+        req = f"hull|{pl(pts)}"
+        try:
+            h = convex_hull_2d([Vec2(float(x), float(y)) for x, y in pts])
+            a = "ok " + pl([(F(v.x), F(v.y)) for v in h])
+        except ValueError:
+            a = "err ValueError"
+        x2.append((req, a, a.startswith("ok")))
+    ctx.correspond("X2 exact predicates", "C19", x2, build=DRIVER_DEPS)
+
+    # ---------------------------------------------------------------- X3 rational valued results at 1e-9
+    lines, items = [], []
+
+    def pts_cmp(model_pts, impl_pts):
+        if len(model_pts) != len(impl_pts):
+            return False
+        return all(close(v.x, m[0]) and close(v.y, m[1]) for v, m in zip(impl_pts, model_pts))
+
+    windows = []
+    for _ in range(ctx.n(60, 300)):
+        k = rng.choice(["rect", "rect", "convex", "convex-cw", "closed"])
+        if k == "rect":
+            lo = (F(rng.randint(0, 4)), F(rng.randint(0, 4)))
+            hi = (lo[0] + rng.randint(1, 4), lo[1] + rng.randint(1, 4))
+            w = [lo, (hi[0], lo[1]), hi, (lo[0], hi[1])]
+        else:
+            w = hull_exact([(F(rng.randint(0, 8)), F(rng.randint(0, 8))) for _ in range(rng.randint(3, 7))])
+            if len(w) < 3:
+                continue
+            if k == "convex-cw":
+                w = w[::-1]
+            if k == "closed":
+                w = w + [w[0]]
+        windows.append(w)
+    windows += [[(F(0), F(0)), (F(1), F(0))], [(F(0), F(0)), (F(1), F(0)), (F(0), F(0))]]  # ValueError
+    subjects = [list(map(lambda p: (F(2 * p[0]), F(2 * p[1])), rng.choice(grid_simple_polygons(4, n)))) for n in (3, 4, 5, 6) for _ in range(ctx.n(8, 40))]
+    subjects += [[], [(F(1), F(1))], [(F(1), F(1)), (F(3), F(3))]]
+    for w in windows:
+        for subj in rng.sample(subjects, min(len(subjects), ctx.n(12, 40))):
+            ccw = rng.random() < 0.8
+            req = f"sh|{1 if ccw else 0}|{TOL}|{pl(w)}|{pl(subj)}"
+            try:
+                clipper = ConvexClippingPolygon2d([Vec2(float(x), float(y)) for x, y in w], ccw_check=ccw)
+                res = list(clipper.clip_polygon([Vec2(float(x), float(y)) for x, y in subj])[0])
+                err = None
+            except ValueError:
+                res, err = None, "err ValueError"
+
+            def cmp(model, res=res, err=err):
+                if err:
+                    return None if model == err else "diff:" + err
+                if model.startswith("band"):
+                    return "skip:decision band (a computed vertex lies exactly on a clipping line)"
+                if not model.startswith("ok"):
+                    return "diff:" + repr(res)
+                return None if pts_cmp(parse_pts(model[3:]), res) else "diff:" + " ".join(f"{v.x!r},{v.y!r}" for v in res)
+
+            lines.append(req)
+            items.append((req, cmp, bool(res)))
+        for _ in range(ctx.n(10, 30)):
+            a = (F(rng.randint(-4, 20), 2), F(rng.randint(-4, 20), 2))
+            b = (F(rng.randint(-4, 20), 2), F(rng.randint(-4, 20), 2))
+            req = f"shline|1|{TOL}|{pl(w)}|{ps(a)}|{ps(b)}"
+            try:
+                clipper = ConvexClippingPolygon2d([Vec2(float(x), float(y)) for x, y in w])
+                res = clipper.clip_line(Vec2(float(a[0]), float(a[1])), Vec2(float(b[0]), float(b[1])))
+                err = None
+            except ValueError:
+                res, err = None, "err ValueError"
+
+            def cmp(model, res=res, err=err):
+                if err:
+                    return None if model == err else "diff:" + err
+                if model.startswith("band"):
+                    return "skip:decision band (a computed end point lies exactly on a clipping line)"
+                if not res:
+                    return None if model == "none" else "diff:()"
+                if not model.startswith("ok"):
+                    return "diff:" + repr(res)
+                return None if pts_cmp(parse_pts(model[3:]), list(res[0])) else "diff:" + repr(res)
+
+            lines.append(req)
+            items.append((req, cmp, bool(res)))
+    # Cohen-Sutherland end points and intersection_line_line_2d
+    for _ in range(ctx.n(3000, 30000)):
+        lo = (rng.choice(quarter[8:14]), rng.choice(quarter[8:14]))
+        hi = (lo[0] + rng.choice(quarter[9:17]), lo[1] + rng.choice(quarter[9:17]))
+        a = (rng.choice(quarter), rng.choice(quarter))
+        b = (rng.choice(quarter), rng.choice(quarter))
+        if rng.random() < 0.25:  # through a corner of the window
+            c = (rng.choice([lo[0], hi[0]]), rng.choice([lo[1], hi[1]]))
+            d = (rng.choice(quarter[9:13]), rng.choice(quarter[4:13]))
+            a, b = (c[0] - d[0], c[1] - d[1]), (c[0] + 2 * d[0], c[1] + 2 * d[1])
+        req = f"cs|{ps(lo)}|{ps(hi)}|{ps(a)}|{ps(b)}"
+        cs = CohenSutherlandLineClipping2d(Vec2(float(lo[0]), float(lo[1])), Vec2(float(hi[0]), float(hi[1])))
+        try:
+            with watchdog(2.0):
+                res = cs.clip_line(Vec2(float(a[0]), float(a[1])), Vec2(float(b[0]), float(b[1])))
+        except Hang:
+            ctx.fail(f"cs/hang/{req}", f"CohenSutherlandLineClipping2d.clip_line does not return: window {ps(lo)}..{ps(hi)} line {ps(a)} -> {ps(b)}",
+                     {"op": "cs", "lo": [str(v) for v in lo], "hi": [str(v) for v in hi], "a": [str(v) for v in a], "b": [str(v) for v in b]})
+            continue
+
+        def cmp(model, res=res):
+            if not res:
+                if model == "reject":
+                    return None
+                if model.startswith("accept"):
+                    m = parse_pts(model[7:])
+                    if m[0] == m[1] or (abs(float(m[0][0] - m[1][0])) < 1e-9 and abs(float(m[0][1] - m[1][1])) < 1e-9):
+                        return "skip:decision band (the segment touches the window in one point)"
+                return "diff:()"
+            if not model.startswith("accept"):
+                if abs(res[0].x - res[1].x) < 1e-9 and abs(res[0].y - res[1].y) < 1e-9:
+                    return "skip:decision band (the segment touches the window in one point)"
+                return "diff:" + repr(res)
+            return None if pts_cmp(parse_pts(model[7:]), list(res)) else "diff:" + repr(res)
+
+        lines.append(req)
+        items.append((req, cmp, True))
+    for _ in range(ctx.n(3000, 30000)):
+        q = [(rng.choice(quarter), rng.choice(quarter)) for _ in range(4)]
+        if rng.random() < 0.2:
+            q[2] = q[0]
+        if rng.random() < 0.2:  # parallel
+            q[3] = (q[2][0] + (q[1][0] - q[0][0]), q[2][1] + (q[1][1] - q[0][1]))
+        if rng.random() < 0.2:  # end point on the other line
+            t = F(rng.randint(0, 4), 4)
+            q[2] = (q[0][0] + t * (q[1][0] - q[0][0]), q[0][1] + t * (q[1][1] - q[0][1]))
+        virtual = rng.random() < 0.5
+        req = f"ill|{1 if virtual else 0}|{TOL}|{ps(q[0])}|{ps(q[1])}|{ps(q[2])}|{ps(q[3])}"
+        v = [Vec2(float(x), float(y)) for x, y in q]
+        res = CPY.intersection_line_line_2d((v[0], v[1]), (v[2], v[3]), virtual=virtual)
+        if CCY is not None:
+            res2 = CCY.intersection_line_line_2d((v[0], v[1]), (v[2], v[3]), virtual=virtual)
+            if (res is None) != (res2 is None) or (res is not None and (res.x != res2.x or res.y != res2.y)):
+                ctx.disagree("X3 rational valued results", req, f"cython: {res2!r}", f"python: {res!r}")
+
+        def cmp(model, res=res):
+            if res is None:
+                return None if model == "none" else "diff:None"
+            if not model.startswith("ok"):
+                return "diff:" + repr(res)
+            return None if pts_cmp(parse_pts(model[3:]), [res]) else "diff:" + repr(res)
+
+        lines.append(req)
+        items.append((req, cmp, res is not None))
+    custom_compare(ctx, "X3 rational valued results", lines, items)
+
+
+# =====================================================================================================
+# part 3: oracle on the real code (exact Fraction arithmetic on the inputs, stated tolerance on float outputs)
+# =====================================================================================================
+EPS = 1e-9
+
+
+def check_triangulation(ext, holes, tris, pts_all):
+    """the C19 predicate for one triangulation; returns None or a short reason.  ext simple, holes disjoint and strictly inside."""
+    n = len(pts_all)
+    for t in tris:
+        if len(t) != 3 or any(not (0 <= i < n) for i in t):
+            return "triangle vertex is not an input vertex"
+    want = abs(area2(ext)) - sum(abs(area2(h)) for h in holes)
+    areas = [area2([pts_all[i] for i in t]) for t in tris]
+    if any(a <= 0 for a in areas):
+        return "triangle with non-positive (clockwise or zero) area"
+    if sum(areas) != want:
+        return f"area sum {F(sum(areas), 2)} != polygon area {F(want, 2)}"
+    T = [[pts_all[i] for i in t] for t in tris]
+    if len(T) <= 60:
+        for i in range(len(T)):
+            for j in range(i + 1, len(T)):
+                if tri_interiors_meet(T[i], T[j]):
+                    return f"triangles {tris[i]} and {tris[j]} overlap"
+    ext3 = [(3 * x, 3 * y) for x, y in ext]  # centroid test in coordinates scaled by 3 (stays in the integers)
+    holes3 = [[(3 * x, 3 * y) for x, y in h] for h in holes]
+    for t in T[:200]:
+        c = (t[0][0] + t[1][0] + t[2][0], t[0][1] + t[1][1] + t[2][1])
+        if pip_exact(c, ext3) < 0 or any(pip_exact(c, h) > 0 for h in holes3):
+            return "triangle centroid outside the polygon or inside a hole"
+    return None
+
+
+def index_collision(ext, holes) -> bool:
+    """linked_list() gives a ring whose winding it reverses the indices start+1..start+n: its last vertex then shares `Node.i`
+    with the first vertex of the next ring when that one is not reversed (known finding F20)"""
+    rings = [(ext, True)] + [(h, False) for h in holes if len(h) > 0]
+    rev = []
+    for pts, ccw in rings:
+        s = -area2(pts)  # signed_area() of the code: clockwise positive
+        rev.append(not (ccw is (s < 0)))
+    return any(rev[k] and not rev[k + 1] for k in range(len(rings) - 1))
+
+
+def oracle_triangulation(ctx):
+    PY, CY, _, _ = impls()
+    from ezdxf.math import Vec2
+    from ezdxf.math import triangulation as TRI
+
+    mods = [("python", PY.earcut)] + ([("cython", CY.earcut)] if CY is not None else [])
+
+    def run(kind, ext, holes):
+        pts_all = list(ext) + [p for h in holes for p in h]
+        for name, fn in mods:
+            tris = run_earcut(fn, ext, holes, lambda p: Vec2(p))
+            ctx.count("O1 triangulation", (name, tuple(ext), tuple(map(tuple, holes))), len(tris) > 1)
+            why = check_triangulation(ext, holes, tris, pts_all)
+            if why:
+                cls = "index-collision" if index_collision(ext, holes) else "other"
+                ctx.fail(f"earcut/{cls}/{kind}/{name}/{pl(ext)}|{';'.join(pl(h) for h in holes)}"[:300],
+                         f"{name} earcut of {kind} polygon {ext} holes {holes}: {why}; triangles {tris}",
+                         {"op": "earcut", "impl": name, "ext": [list(map(str, p)) for p in ext],
+                          "holes": [[list(map(str, p)) for p in h] for h in holes]})
+
+    # corpus: the input on which F20 was found
+    run("ortho", [(18, 15), (12, 15), (6, 15), (0, 15), (0, 0), (24, 0), (24, 21), (18, 21)],
+        [[(14, 8), (20, 11), (17, 14), (14, 11)], [(9, 6), (10, 6), (10, 5), (9, 5)]])
+    for n in range(3, ctx.n(6, 7) + 1):
+        polys = grid_simple_polygons(4, n)
+        step = 1 if n < 6 else ctx.n(3, 1)
+        for poly in polys[::step]:
+            run(f"grid{n}", list(poly), [])
+    for kind, ext, holes in valid_with_holes(ctx, "oracle-valid", ctx.n(1200, 12000)):
+        run(kind, ext, holes)
+    # z-order hashed path: more than 80 exterior vertices
+    rng = ctx.rng("big")
+    for _ in range(ctx.n(25, 300)):
+        ext = star_polygon(rng, rng.choice([81, 90, 120, 200]), rng.choice([200, 1000]))
+        holes = place_holes(rng, ext, rng.choice([0, 1, 3]), 4)
+        ctx.hist("O1 triangulation", "hashed(>80 vertices)" if len(ext) > 80 else "star")
+        run("big-star", ext, holes)
+    for _ in range(ctx.n(25, 300)):
+        ext, _ = ortho_polygon(rng, rng.randint(41, 60), 9, keep_collinear=False)
+        ctx.hist("O1 triangulation", "hashed(>80 vertices)" if len(ext) > 80 else "ortho")
+        run("big-ortho", ext, place_holes(rng, ext, 2, 1))
+    # the public entry point, 2D and 3D (flat polygon in a tilted plane): same predicate through the API
+    from ezdxf.math import Vec3
+
+    for kind, ext, holes in valid_with_holes(ctx, "api", ctx.n(100, 1000)):
+        res = TRI.mapbox_earcut_2d([Vec2(p) for p in ext], [[Vec2(p) for p in h] for h in holes])
+        index = {}
+        for k, p in enumerate(list(ext) + [p for h in holes for p in h]):
+            index.setdefault((float(p[0]), float(p[1])), k)
+        tris = [tuple(index.get((v.x, v.y), -1) for v in t) for t in res]
+        ctx.count("O1 triangulation", ("api2d", tuple(ext)), True)
+        why = check_triangulation(ext, holes, tris, list(ext) + [p for h in holes for p in h])
+        if why:
+            ctx.fail(f"earcut/api2d/{pl(ext)}"[:300], f"mapbox_earcut_2d {ext} {holes}: {why}", {"op": "earcut2d", "ext": [list(map(str, p)) for p in ext], "holes": [[list(map(str, p)) for p in h] for h in holes]})
+        res3 = list(TRI.mapbox_earcut_3d([Vec3(p[0], p[1], 5.0) for p in ext], [[Vec3(p[0], p[1], 5.0) for p in h] for h in holes]))
+        a3 = sum(abs((t[1] - t[0]).cross(t[2] - t[0]).z) for t in res3)
+        want = abs(area2(ext)) - sum(abs(area2(h)) for h in holes)
+        if len(ext) > 3 and not close(a3, want, 1e-9):
+            ctx.fail(f"earcut/api3d/{pl(ext)}"[:300], f"mapbox_earcut_3d area {a3 / 2} != {want / 2}", {"op": "earcut3d", "ext": [list(map(str, p)) for p in ext]})
+
+
+def float_area2(vs):
+    s = 0.0
+    for i in range(len(vs)):
+        a, b = vs[i - 1], vs[i]
+        s += a.x * b.y - b.x * a.y
+    return s
+
+
+def dist_to_boundary(p, poly):
+    best = math.inf
+    for i in range(len(poly)):
+        a, b = poly[i - 1], poly[i]
+        ax, ay, bx, by = float(a[0]), float(a[1]), float(b[0]), float(b[1])
+        dx, dy = bx - ax, by - ay
+        L = dx * dx + dy * dy
+        t = 0.0 if L == 0 else max(0.0, min(1.0, ((p.x - ax) * dx + (p.y - ay) * dy) / L))
+        best = min(best, math.hypot(p.x - (ax + t * dx), p.y - (ay + t * dy)))
+    return best
+
+
+def window_set(ctx, rng, count):
+    """convex clipping windows (ccw lists of Fractions), rectangles first"""
+    out = []
+    for _ in range(count):
+        if rng.random() < 0.5:
+            lo = (F(rng.randint(0, 5)), F(rng.randint(0, 5)))
+            hi = (lo[0] + rng.randint(1, 5), lo[1] + rng.randint(1, 5))
+            out.append(("rect", [lo, (hi[0], lo[1]), hi, (lo[0], hi[1])]))
+        else:
+            w = hull_exact([(F(rng.randint(0, 12), 2), F(rng.randint(0, 12), 2)) for _ in range(rng.randint(3, 8))])
+            if len(w) >= 3:
+                out.append(("convex", w))
+    return out
+
+
+def liang_barsky(w, a, b):
+    """exact clipping of segment ab against a convex ccw polygon: (t0, t1) or None"""
+    t0, t1 = F(0), F(1)
+    for i in range(len(w)):
+        c, d = w[i - 1], w[i]
+        sa, sb = orient(c, d, a), orient(c, d, b)
+        if sa < 0 and sb < 0:
+            return None
+        if sa < 0:
+            t0 = max(t0, F(sa) / F(sa - sb))
+        elif sb < 0:
+            t1 = min(t1, F(sa) / F(sa - sb))
+    return (t0, t1) if t0 <= t1 else None
+
+
+def oracle_clipping(ctx):
+    from ezdxf.math import Vec2
+    from ezdxf.math.clipping import ConvexClippingPolygon2d, ClippingRect2d, ConcaveClippingPolygon2d, CohenSutherlandLineClipping2d
+
+    rng = ctx.rng("clip")
+    V = lambda p: Vec2(float(p[0]), float(p[1]))
+    subjects = []
+    for n in (3, 4, 5, 6, 7 if not ctx.quick else 6):
+        g = grid_simple_polygons(4, n)
+        subjects += [[(F(3 * x, 2), F(3 * y, 2)) for x, y in rng.choice(g)] for _ in range(ctx.n(15, 80))]
+    for kind, w in window_set(ctx, rng, ctx.n(50, 400)):
+        rect = ClippingRect2d(V(w[0]), V(w[2])) if kind == "rect" else None
+        conv = ConvexClippingPolygon2d([V(p) for p in w])
+        for subj in rng.sample(subjects, ctx.n(10, 30)):
+            if rng.random() < 0.3:  # move a window edge onto a subject vertex / make edges collinear
+                subj = [(x + w[0][0] - subj[0][0], y + w[0][1] - subj[0][1]) for x, y in subj]
+            want = inter_area2(subj, w)
+            for name, clipper in (("ConvexClippingPolygon2d", conv), ("ClippingRect2d", rect)):
+                if clipper is None:
+                    continue
+                res = list(clipper.clip_polygon([V(p) for p in subj])[0])
+                ctx.count("O2 convex clipping of polygons", (name, tuple(w), tuple(subj)), 0 < want < abs(area2(subj)))
+                key = f"clip-polygon/{name}/{pl(w)}|{pl(subj)}"[:300]
+                rep = {"op": "clip_polygon", "cls": name, "window": [list(map(str, p)) for p in w], "subject": [list(map(str, p)) for p in subj]}
+                scale = 1.0 + max(abs(float(c)) for p in subj + w for c in p)
+                bad = None
+                for v in res:
+                    if any(float(orient(w[i - 1], w[i], (F(v.x), F(v.y)))) < -EPS * scale * scale for i in range(len(w))):
+                        bad = f"vertex {v} outside the window"
+                    elif dist_to_boundary(v, subj) > EPS * scale and dist_to_boundary(v, w) > EPS * scale:
+                        bad = f"vertex {v} neither on the subject boundary nor on the window boundary"
+                got = abs(float_area2(res)) if len(res) >= 3 else 0.0
+                if bad is None and abs(got - float(want)) > EPS * scale * scale:
+                    bad = f"area {got / 2} != exact area of the intersection {float(want) / 2}"
+                if bad:
+                    ctx.fail(key, f"{name}({w}).clip_polygon({subj}): {bad}", rep)
+        # lines and polylines against the same window
+        for _ in range(ctx.n(20, 60)):
+            a = (F(rng.randint(-4, 24), 2), F(rng.randint(-4, 24), 2))
+            b = (F(rng.randint(-4, 24), 2), F(rng.randint(-4, 24), 2))
+            if rng.random() < 0.3:  # along a window edge / through a window corner
+                i = rng.randrange(len(w))
+                c, d = w[i - 1], w[i]
+                t, u = F(rng.randint(-2, 6), 4), F(rng.randint(-2, 6), 4)
+                a = (c[0] + t * (d[0] - c[0]), c[1] + t * (d[1] - c[1]))
+                b = (c[0] + u * (d[0] - c[0]), c[1] + u * (d[1] - c[1])) if rng.random() < 0.5 else b
+            if a == b:
+                continue
+            exact = liang_barsky(w, a, b)
+            for name, clipper in (("ConvexClippingPolygon2d", conv), ("ClippingRect2d", rect)):
+                if clipper is None:
+                    continue
+                key = f"clip-line/{name}/{pl(w)}|{ps(a)}|{ps(b)}"[:300]
+                rep = {"op": "clip_line", "cls": name, "window": [list(map(str, p)) for p in w], "a": list(map(str, a)), "b": list(map(str, b))}
+                try:
+                    with watchdog(2.0):
+                        res = clipper.clip_line(V(a), V(b))
+                except Hang:
+                    ctx.fail("cs/hang/" + key, f"{name}.clip_line does not return: window {w} line {a}->{b}", rep)
+                    continue
+                ctx.count("O2b convex clipping of lines", (name, tuple(w), a, b), exact is not None)
+                L = math.hypot(float(b[0] - a[0]), float(b[1] - a[1]))
+                want_len = 0.0 if exact is None else float(exact[1] - exact[0]) * L
+                got_len = sum(s.distance(e) for s, e in res)
+                bad = None
+                if abs(want_len - got_len) > 1e-9 * (1 + L):
+                    bad = f"clipped length {got_len} != exact {want_len}"
+                elif res and exact is not None:
+                    s, e = res[0]
+                    es = (float(a[0] + exact[0] * (b[0] - a[0])), float(a[1] + exact[0] * (b[1] - a[1])))
+                    if math.hypot(s.x - es[0], s.y - es[1]) > 1e-9 * (1 + L):
+                        bad = f"start {s} != exact {es}"
+                if bad:
+                    ctx.fail(key, f"{name}({w}).clip_line({a}, {b}) = {res}: {bad}", rep)
+    # Cohen-Sutherland with arbitrary doubles through / near the window corners: must return
+    known = [((0.0, 0.0), (0.3, 0.9), (-1.0, 0.0), (1.6, 1.8))]
+    for k in range(ctx.n(60000, 400000)):
+        if k < len(known):
+            lo, hi, a, b = known[k]
+        else:
+            lo = (rng.uniform(-10, 10), rng.uniform(-10, 10))
+            hi = (lo[0] + rng.uniform(0.1, 5), lo[1] + rng.uniform(0.1, 5))
+            c = (rng.choice([lo[0], hi[0]]), rng.choice([lo[1], hi[1]]))
+            dx, dy = rng.uniform(-5, 5), rng.uniform(-5, 5)
+            t1, t2 = rng.uniform(0.1, 3), rng.uniform(0.1, 3)
+            a, b = (c[0] - dx * t1, c[1] - dy * t1), (c[0] + dx * t2, c[1] + dy * t2)
+        cs = CohenSutherlandLineClipping2d(Vec2(lo), Vec2(hi))
+        ctx.count("O2c Cohen-Sutherland returns", (lo, hi, a, b), True)
+        try:
+            try:
+                with watchdog(0.25):
+                    res = cs.clip_line(Vec2(a), Vec2(b))
+            except Hang:  # confirm with a longer limit (a loaded machine must not produce a finding)
+                with watchdog(2.0):
+                    res = cs.clip_line(Vec2(a), Vec2(b))
+        except Hang:
+            ctx.fail(f"cs/hang/{lo!r}|{hi!r}|{a!r}|{b!r}", f"CohenSutherlandLineClipping2d({lo}, {hi}).clip_line({a}, {b}) does not return (rounding makes the outcode alternate)",
+                     {"op": "cs-float", "lo": list(lo), "hi": list(hi), "a": list(a), "b": list(b)})
+            continue
+        for v in res:
+            if not (lo[0] - 1e-9 <= v.x <= hi[0] + 1e-9 and lo[1] - 1e-9 <= v.y <= hi[1] + 1e-9):
+                ctx.fail(f"cs/outside/{lo!r}|{hi!r}|{a!r}|{b!r}", f"clip_line end point {v} outside window {lo}..{hi}", {"op": "cs-float", "lo": list(lo), "hi": list(hi), "a": list(a), "b": list(b)})
+    # concave clipping polygon: lines (general position and touching) against exact inside intervals
+    for _ in range(ctx.n(150, 1500)):
+        n = rng.choice([4, 5, 6])
+        poly = [(F(2 * x), F(2 * y)) for x, y in rng.choice(grid_simple_polygons(4, n))]
+        clipper = ConcaveClippingPolygon2d([V(p) for p in poly])
+        for _ in range(8):
+            general = rng.random() < 0.6
+            if general:
+                a = (F(rng.randint(-8, 56), 8) + F(1, 16), F(rng.randint(-8, 56), 8) + F(1, 32))
+                b = (F(rng.randint(-8, 56), 8) + F(1, 64), F(rng.randint(-8, 56), 8) + F(1, 128))
+            else:
+                a = (F(rng.randint(-1, 7)), F(rng.randint(-1, 7)))
+                b = (F(rng.randint(-1, 7)), F(rng.randint(-1, 7)))
+            if a == b:
+                continue
+            # exact inside length: cut parameters, midpoints classified exactly (closed polygon)
+            ts = {F(0), F(1)}
+            for i in range(len(poly)):
+                c, d = poly[i - 1], poly[i]
+                da, db = orient(c, d, a), orient(c, d, b)
+                if da != db and seg_touch(a, b, c, d):
+                    ts.add(F(da) / F(da - db))
+                for q in (c, d):
+                    if on_seg(a, b, q):
+                        den = (b[0] - a[0]) if b[0] != a[0] else (b[1] - a[1])
+                        ts.add(F((q[0] - a[0]) if b[0] != a[0] else (q[1] - a[1])) / F(den))
+            ts = sorted(ts)
+            inside_len = F(0)
+            for t0, t1 in zip(ts, ts[1:]):
+                m = (a[0] + (t0 + t1) / 2 * (b[0] - a[0]), a[1] + (t0 + t1) / 2 * (b[1] - a[1]))
+                if pip_exact(m, poly) >= 0:
+                    inside_len += t1 - t0
+            L = math.hypot(float(b[0] - a[0]), float(b[1] - a[1]))
+            try:
+                with watchdog(2.0):
+                    res = clipper.clip_line(V(a), V(b))
+            except Hang:
+                ctx.fail(f"concave/hang/{pl(poly)}|{ps(a)}|{ps(b)}", "ConcaveClippingPolygon2d.clip_line does not return", {"op": "concave_line", "poly": [list(map(str, p)) for p in poly], "a": list(map(str, a)), "b": list(map(str, b))})
+                continue
+            got = sum(s.distance(e) for s, e in res)
+            stream = "O2d concave clipping of lines (general position)" if general else "O2e concave clipping of lines (touching, collinear)"
+            ctx.count(stream, (tuple(poly), a, b), 0 < inside_len < 1)
+            if abs(got - float(inside_len) * L) > 1e-8 * (1 + L):
+                if pip_exact(a, poly) == 0:
+                    kind = "start-on-boundary"
+                elif any(on_seg(a, b, q) for q in poly):
+                    kind = "through-vertex"
+                elif pip_exact(b, poly) == 0:
+                    kind = "end-on-boundary"
+                else:
+                    kind = "general" if general else "touching-other"
+                ctx.fail(f"concave-line/{kind}/{pl(poly)}|{ps(a)}|{ps(b)}"[:300],
+                         f"ConcaveClippingPolygon2d({poly}).clip_line({a}, {b}) = {res}: inside length {got} != exact {float(inside_len) * L}",
+                         {"op": "concave_line", "poly": [list(map(str, p)) for p in poly], "a": list(map(str, a)), "b": list(map(str, b))})
+
+
+def general_position(P, Q):
+    """no vertex of one polygon on an edge (line segment) of the other, no parallel overlapping edges"""
+    for A, B in ((P, Q), (Q, P)):
+        for p in A:
+            for i in range(len(B)):
+                if on_seg(B[i - 1], B[i], p):
+                    return False
+    return True
+
+
+def oracle_greiner_hormann(ctx):
+    from ezdxf.math import Vec2
+    from ezdxf.math.clipping import greiner_hormann_union, greiner_hormann_intersection, greiner_hormann_difference, ConcaveClippingPolygon2d
+
+    rng = ctx.rng("gh")
+    done = 0
+    tries = 0
+    target = ctx.n(400, 4000)
+    while done < target and tries < 20 * target:
+        tries += 1
+        P = star_polygon(rng, rng.choice([3, 4, 5, 7, 9]), 16)
+        Q = star_polygon(rng, rng.choice([3, 4, 5, 7, 9]), 16)
+        off = (F(rng.randint(-40, 40), 4) + F(1, 8), F(rng.randint(-40, 40), 4) + F(1, 16))
+        Q = [(F(x) + off[0], F(y) + off[1]) for x, y in Q]
+        P = [(F(x), F(y)) for x, y in P]
+        if rng.random() < 0.5:
+            Q = Q[::-1]
+        if not general_position(P, Q):
+            continue
+        crossings = sum(1 for i in range(len(P)) for j in range(len(Q)) if seg_proper(P[i - 1], P[i], Q[j - 1], Q[j]))
+        if crossings == 0:
+            continue
+        done += 1
+        aP, aQ, aI = abs(area2(P)), abs(area2(Q)), inter_area2(P, Q)
+        vp = [Vec2(float(x), float(y)) for x, y in P]
+        vq = [Vec2(float(x), float(y)) for x, y in Q]
+        rep = {"op": "gh", "p": [list(map(str, p)) for p in P], "q": [list(map(str, p)) for p in Q]}
+        key = f"{pl(P)}|{pl(Q)}"[:250]
+        try:
+            with watchdog(2.0):
+                U = greiner_hormann_union(vp, vq)
+                I = greiner_hormann_intersection(vp, vq)
+                D = greiner_hormann_difference(vp, vq)
+        except Hang:
+            ctx.fail("gh/hang/" + key, f"greiner_hormann does not return for {P} {Q}", rep)
+            continue
+        except Exception as e:  # noqa
+            ctx.fail(f"gh/raise/{type(e).__name__}/" + key, f"greiner_hormann raised {type(e).__name__}: {e}", rep)
+            continue
+        ctx.count("O3 Greiner-Hormann area laws", (tuple(P), tuple(Q)), True)
+        ctx.hist("O3 Greiner-Hormann area laws", f"{min(crossings, 8)} crossings")
+        ua = sorted((abs(float_area2(r)) for r in U), reverse=True)
+        union = (ua[0] - sum(ua[1:])) if ua else 0.0
+        inter = sum(abs(float_area2(r)) for r in I)
+        diff = sum(abs(float_area2(r)) for r in D)
+        scale = float(aP + aQ) + 1.0
+        bad = []
+        if abs(inter - float(aI)) > 1e-9 * scale:
+            bad.append(f"area(A&B)={inter / 2} exact {float(aI) / 2}")
+        if abs((union + inter) - float(aP + aQ)) > 1e-9 * scale:
+            bad.append(f"area(A|B)+area(A&B)={(union + inter) / 2} != area(A)+area(B)={float(aP + aQ) / 2}")
+        if abs(diff - float(aP - aI)) > 1e-9 * scale:
+            bad.append(f"area(A-B)={diff / 2} exact {float(aP - aI) / 2}")
+        if bad:
+            ctx.fail("gh/area/" + key, f"Greiner-Hormann on {P} and {Q} (general position, {crossings} crossings): " + "; ".join(bad), rep)
+        # the concave clipping polygon uses the same machinery
+        try:
+            res = ConcaveClippingPolygon2d(vq).clip_polygon(vp)
+            got = sum(abs(float_area2(list(r))) for r in res)
+            ctx.count("O3b ConcaveClippingPolygon2d.clip_polygon", (tuple(P), tuple(Q)), True)
+            if abs(got - float(aI)) > 1e-9 * scale:
+                ctx.fail("concave-polygon/area/" + key, f"ConcaveClippingPolygon2d({Q}).clip_polygon({P}): area {got / 2} != exact {float(aI) / 2}", dict(rep, op="concave_polygon"))
+        except Exception as e:  # noqa
+            ctx.fail(f"concave-polygon/raise/{type(e).__name__}/" + key, f"ConcaveClippingPolygon2d.clip_polygon raised {type(e).__name__}: {e}", dict(rep, op="concave_polygon"))
+
+
+def oracle_hull_predicates(ctx):
+    from ezdxf.math import Vec2, convex_hull_2d
+    from ezdxf.math.construct2d import is_convex_polygon_2d, area as area_fn
+
+    _, _, CPY, CCY = impls()
+    rng = ctx.rng("hull")
+    for _ in range(ctx.n(3000, 30000)):
+        n = rng.choice([3, 4, 5, 8, 13, 30, 80])
+        G = rng.choice([2, 3, 5, 9, 40])
+        pts = [(F(rng.randint(0, 4 * G), 4), F(rng.randint(0, 4 * G), 4)) for _ in range(n)]
+        if rng.random() < 0.2:
+            k = F(rng.randint(-3, 3))
+            pts = [(x, k * x + 1) for x, _ in pts]  # all collinear
+        ctx.count("O4 convex hull", tuple(pts), len(set(pts)) > 3)
+        key = f"hull/{pl(pts)}"[:300]
+        rep = {"op": "hull", "pts": [list(map(str, p)) for p in pts]}
+        try:
+            h = convex_hull_2d([Vec2(float(x), float(y)) for x, y in pts])
+        except ValueError:
+            if len(set(pts)) >= 3:
+                ctx.fail(key, f"convex_hull_2d raised ValueError for {len(set(pts))} distinct points", rep)
+            continue
+        hp = [(F(v.x), F(v.y)) for v in h]
+        bad = None
+        if hp[0] != hp[-1]:
+            bad = "result is not closed"
+        elif any(p not in set(pts) for p in hp):
+            bad = "hull vertex is not an input point"
+        else:
+            ring = hp[:-1]
+            exact = hull_exact(pts)
+            if len(exact) >= 3:
+                if any(orient(ring[i - 1], ring[i], p) < 0 for i in range(len(ring)) for p in set(pts)):
+                    bad = "an input point lies outside the hull"
+                elif any(orient(ring[i - 2], ring[i - 1], ring[i]) <= 0 for i in range(len(ring))):
+                    bad = "hull is not strictly convex"
+                elif sorted(ring) != sorted(exact):
+                    bad = "hull differs from the exact hull"
+        if bad:
+            ctx.fail(key, f"convex_hull_2d({pts}) = {hp}: {bad}", rep)
+    # predicates against exact arithmetic, away from the tolerance band (dyadic inputs, exact zero included)
+    twins = [("python", CPY)] + ([("cython", CCY)] if CCY is not None else [])
+    half = [F(k, 2) for k in range(-1, 8)]
+    for n in (3, 4, 5, 6):
+        g = grid_simple_polygons(4, n)
+        for _ in range(ctx.n(150, 1500)):
+            poly = list(rng.choice(g))
+            vs = [Vec2(p) for p in poly]
+            for name, mod in twins:
+                cw = mod.has_clockwise_orientation(vs)
+                ctx.count("O5 predicates vs exact arithmetic", ("cw", name, tuple(poly)), True)
+                if cw != (area2(poly) < 0):
+                    ctx.fail(f"cw/{name}/{pl(poly)}", f"has_clockwise_orientation({poly}) = {cw}", {"op": "cw", "poly": poly})
+            a = float(area_fn(vs))
+            if abs(a - abs(area2(poly)) / 2) > 1e-12:
+                ctx.fail(f"area/{pl(poly)}", f"construct2d.area({poly}) = {a}", {"op": "area", "poly": poly})
+            for _ in range(10):
+                p = (rng.choice(half), rng.choice(half))
+                want = pip_exact(p, poly)
+                for name, mod in twins:
+                    got = mod.is_point_in_polygon_2d(Vec2(float(p[0]), float(p[1])), vs)
+                    ctx.count("O5 predicates vs exact arithmetic", ("pip", name, tuple(poly), p), want >= 0)
+                    if got != want:
+                        ctx.fail(f"pip/{name}/{pl(poly)}|{ps(p)}", f"is_point_in_polygon_2d({p}, {poly}) = {got}, exact {want}", {"op": "pip", "poly": poly, "p": list(map(str, p))})
+    quarter = [F(k, 4) for k in range(-8, 21)]
+    for _ in range(ctx.n(3000, 30000)):
+        q = [(rng.choice(quarter), rng.choice(quarter)) for _ in range(4)]
+        if rng.random() < 0.25:
+            t = F(rng.randint(0, 4), 4)
+            q[2] = (q[0][0] + t * (q[1][0] - q[0][0]), q[0][1] + t * (q[1][1] - q[0][1]))
+        v = [Vec2(float(x), float(y)) for x, y in q]
+        den = orient(q[2], q[3], q[0]) - orient(q[2], q[3], q[1])
+        for virtual in (True, False):
+            if den == 0:
+                want = None
+            else:
+                us = F(orient(q[2], q[3], q[0])) / F(den)
+                uc = F(orient(q[0], q[1], q[2])) / F(orient(q[0], q[1], q[2]) - orient(q[0], q[1], q[3])) if orient(q[0], q[1], q[2]) != orient(q[0], q[1], q[3]) else None
+                want = (q[0][0] + us * (q[1][0] - q[0][0]), q[0][1] + us * (q[1][1] - q[0][1]))
+                if not virtual and not (0 <= us <= 1 and uc is not None and 0 <= uc <= 1):
+                    want = None
+            for name, mod in twins:
+                got = mod.intersection_line_line_2d((v[0], v[1]), (v[2], v[3]), virtual=virtual)
+                ctx.count("O5 predicates vs exact arithmetic", ("ill", name, tuple(q), virtual), want is not None)
+                ok = (got is None) == (want is None) and (got is None or (close(got.x, want[0]) and close(got.y, want[1])))
+                if not ok:
+                    ctx.fail(f"ill/{name}/{pl(q)}|{virtual}", f"intersection_line_line_2d({q}, virtual={virtual}) = {got}, exact {want}", {"op": "ill", "q": [list(map(str, p)) for p in q], "virtual": virtual})
+
+
+def oracle(ctx):
+    ctx.note("oracle O1: triangles use input vertices only, are counter-clockwise, exact area sum = polygon area minus holes, "
+             "pairwise exact non-overlap (separating axis), centroid inside; both implementations; > 80 vertices for the hashed path")
+    ctx.note("oracle O2: clip_polygon result inside the window, on subject/window boundary, area = exact area of the intersection "
+             "(signed fan decomposition + convex vertex enumeration in Fractions, tolerance 1e-9); clip_line = exact Liang-Barsky; "
+             "Cohen-Sutherland must return (0.25 s watchdog); concave clip_line = exact inside length")
+    ctx.note("oracle O3: Greiner-Hormann on polygons in general position with at least one proper crossing: area(A&B) exact, "
+             "area(A)+area(B) = area(A|B)+area(A&B), area(A-B) = area(A)-area(A&B), tolerance 1e-9 relative")
+    for part in (oracle_triangulation, oracle_clipping, oracle_greiner_hormann, oracle_hull_predicates):
+        try:
+            part(ctx)
+        except Exception as e:  # noqa: an exception escaping from the implementation is a finding of its own
+            import traceback
+
+            tb = traceback.extract_tb(e.__traceback__)
+            inside = [fr for fr in tb if "/ezdxf/" in fr.filename]
+            if not inside:
+                raise
+            where = f"{inside[-1].filename.split('/ezdxf/')[-1]}:{inside[-1].name}"
+            ctx.fail(f"raise/{part.__name__}/{type(e).__name__}/{where}", f"{part.__name__}: {type(e).__name__}: {e} raised in {where}; "
+                     "the remaining inputs of this part were not evaluated", {"op": "raise", "part": part.__name__})
+
+
+def replay(ctx, rep):
+    from ezdxf.math import Vec2
+    from ezdxf.math.clipping import CohenSutherlandLineClipping2d
+
+    bad = []
+    PY, CY, _, _ = impls()
+    for f in rep.get("failing_inputs", []):
+        r = f["replay"]
+        try:
+            if r["op"] == "earcut":
+                ext = [(F(a), F(b)) for a, b in r["ext"]]
+                holes = [[(F(a), F(b)) for a, b in h] for h in r["holes"]]
+                fn = PY.earcut if r.get("impl") == "python" or CY is None else CY.earcut
+                tris = run_earcut(fn, ext, holes, lambda p: Vec2(float(p[0]), float(p[1])))
+                why = check_triangulation(ext, holes, tris, ext + [p for h in holes for p in h])
+                if why:
+                    bad.append(f"{f['key'][:80]}: {why}")
+            elif r["op"] in ("cs", "cs-float"):
+                conv = (lambda v: float(F(v))) if r["op"] == "cs" else float
+                lo, hi, a, b = ([conv(v) for v in r[k]] for k in ("lo", "hi", "a", "b"))
+                try:
+                    with watchdog(1.0):
+                        CohenSutherlandLineClipping2d(Vec2(lo), Vec2(hi)).clip_line(Vec2(a), Vec2(b))
+                except Hang:
+                    bad.append(f"{f['key'][:80]}: does not return")
+            else:
+                bad.append(f"{f['key'][:80]}: replay of op {r['op']} = rerun ./check C19 with the recorded seed")
+        except Exception as e:  # noqa
+            bad.append(f"{f['key'][:80]}: {type(e).__name__}")
+    return (not bad, "; ".join(bad) or "all recorded failing inputs pass now")
